@@ -52,4 +52,8 @@ func (l *logLogger) Printf(f string, v ...interface{}) { l.l.Printf(f, v...) }
 func (l *logLogger) Println(v ...interface{})          { l.l.Println(v...) }
 func (l *logLogger) SetFlags(flag int)                 { l.l.SetFlags(flag) }
 func (l *logLogger) SetOutput(w io.Writer)             { l.l.SetOutput(w) }
+func (l *logLogger) SetPrefix(p string)                { l.l.SetPrefix(p) }
 func (l *logLogger) Writer() io.Writer                 { return l.l.Writer() }
+
+// logDefault returns the wrapped standard logger.
+func logDefault() *logLogger { return &logLogger{log.Default()} }
